@@ -188,7 +188,160 @@ def rule_solve(chk, prog):
     (r.bad if bad else r.ok)("add-on repeats while limited", f2.loc(sv[0]) if sv else f2.where(), bad or "")
 
 
+def rule_corner_tables(chk, prog):
+    """The (dimension, corner) tables of libtopology, tied to one geometric definition."""
+    r = chk.rule("CORNER-TABLES", "the tables over (dimension, rectangle corner) agree with the geometry TL=(minX,maxY), TR=(maxX,maxY), "
+                 "BL=(minX,minY), BR=(maxX,minY): EdgePoint::pos(dim) = centre(dim) + EdgePoint::offset(dim) = the corner's coordinate "
+                 "(symbolic); transferStraightConstraintChoose sends a constraint whose scan position lies on the new bend to the low "
+                 "segment exactly when its corner is on the high side in the other dimension; resize's SubstituteNodes attaches a corner to "
+                 "the low (lhs) dummy node exactly when the corner is on the low side in the resize dimension -- so the x and the y pass "
+                 "treat a transposed picture alike", floor=3)
+    RI = {}
+    for e in prog.enums.values():
+        if e.get("q") == "topology::EdgePoint::RectIntersect":
+            RI = {c["name"]: int(c["v"]) for c in e["enumerators"]}
+    if set(RI) < {"TL", "TR", "BL", "BR", "CENTRE"}:
+        raise AnalysisBroken("EdgePoint::RectIntersect enumerators not found")
+    geom = {"TL": ("minX", "maxY"), "TR": ("maxX", "maxY"), "BL": ("minX", "minY"), "BR": ("maxX", "minY")}
+    V = {k: Poly.var(k) for k in ("minX", "maxX", "minY", "maxY")}
+    half = Fraction(1, 2)
+    hooks = {
+        "vpsc::Rectangle::getMinX": lambda it, n, env: V["minX"], "vpsc::Rectangle::getMaxX": lambda it, n, env: V["maxX"],
+        "vpsc::Rectangle::getMinY": lambda it, n, env: V["minY"], "vpsc::Rectangle::getMaxY": lambda it, n, env: V["maxY"],
+        "vpsc::Rectangle::getMinD": lambda it, n, env: V["minX"] if it.ev(call_args(n)[0], env) == 0 else V["minY"],
+        "vpsc::Rectangle::getMaxD": lambda it, n, env: V["maxX"] if it.ev(call_args(n)[0], env) == 0 else V["maxY"],
+        "vpsc::Rectangle::getCentreD": lambda it, n, env: (to_poly(V["minX"]) + to_poly(V["maxX"])) * half if it.ev(call_args(n)[0], env) == 0
+        else (to_poly(V["minY"]) + to_poly(V["maxY"])) * half,
+        "vpsc::Rectangle::length": lambda it, n, env: (to_poly(V["maxX"]) - to_poly(V["minX"])) if it.ev(call_args(n)[0], env) == 0
+        else (to_poly(V["maxY"]) - to_poly(V["minY"])),
+        "topology::Log*": lambda it, n, env: -1, "topology::Output2FILE::Stream": lambda it, n, env: None,
+    }
+    fpos, foff = prog.fn("topology::EdgePoint::pos"), prog.fn("topology::EdgePoint::offset")
+    node = default_obj(prog, "topology::Node", {"rect": Obj("vpsc::Rectangle", {}), "id": 7})
+    offs = {}
+    bad = None
+    for cn, xy in geom.items():
+        for dim in (0, 1):
+            ep = default_obj(prog, "topology::EdgePoint", {"node": node, "rectIntersect": RI[cn]})
+            it = Interp(prog, Oracle([]), hooks=hooks)
+            try:
+                p = it.call(fpos, ep, None, None, arg_values=[dim])
+                o = it.call(foff, ep, None, None, arg_values=[dim])
+            except (Unsupported, AssertFail) as e:
+                raise AnalysisBroken("EdgePoint::pos/offset outside the interpreter subset: %s" % e)
+            want = to_poly(V[xy[dim]])
+            centre = (to_poly(V["minX"]) + to_poly(V["maxX"])) * half if dim == 0 else (to_poly(V["minY"]) + to_poly(V["maxY"])) * half
+            offs[(cn, dim)] = to_poly(o)
+            if to_poly(p) != want:
+                bad = bad or "EdgePoint::pos(%s) of corner %s is %s, the corner's coordinate is %s" % ("xy"[dim], cn, to_poly(p), want)
+            elif centre + to_poly(o) != want:
+                bad = bad or "centre + EdgePoint::offset(%s) of corner %s is %s, the corner's coordinate is %s" % ("xy"[dim], cn, centre + to_poly(o), want)
+    r.count(8)
+    (r.bad if bad else r.ok)("EdgePoint::pos / offset", fpos.where(), bad or "")
+
+    def high(cn, dim):          # corner on the high side of its rectangle in dimension dim (by the geometric definition)
+        return geom[cn][dim].startswith("max")
+    # ---- transfer of straight constraints at a new bend
+    ft = prog.fn("topology::transferStraightConstraintChoose::operator()")
+    bad = None
+    for dim in (0, 1):
+        for cn in geom:
+            sent = []
+            hk = dict(hooks)
+            hk["topology::Segment::transferStraightConstraint"] = lambda it, n, env: sent.append(it.ev(call_object(n), env).f["_tag"])
+            lseg, rseg = Obj("topology::Segment", {"_tag": "low"}), Obj("topology::Segment", {"_tag": "high"})
+            ign = default_obj(prog, "topology::StraightConstraint", {"scanDim": dim})
+            c = default_obj(prog, "topology::StraightConstraint", {"scanDim": dim, "pos": Fraction(5), "ri": RI[cn]})
+            fun = default_obj(prog, "topology::transferStraightConstraintChoose", {"lSeg": lseg, "rSeg": rseg, "lMin": Fraction(0), "mid": Fraction(5),
+                                                                                     "rMax": Fraction(9), "ignore": ign})
+            it = Interp(prog, Oracle([]), hooks=hk)
+            try:
+                it.call(ft, fun, None, None, arg_values=[c])
+            except (Unsupported, AssertFail) as e:
+                raise AnalysisBroken("transferStraightConstraintChoose outside the interpreter subset: %s" % e)
+            want = "low" if high(cn, 1 - dim) else "high"
+            if sent != [want]:
+                bad = bad or "scan dimension %s, corner %s on the new bend: constraint goes to the %s segment, expected the %s one (the node " \
+                             "lies on the %s side of the bend)" % ("xy"[dim], cn, sent, want, "low" if want == "low" else "high")
+    r.count(8)
+    (r.bad if bad else r.ok)("transferStraightConstraintChoose tie-break", ft.where(), bad or "")
+    # ---- resize: which dummy node a corner is attached to
+    cands = [f for f in prog.fns("topology::SubstituteNodes::operator()") if f.params and "EdgePoint" in f.params[0]["t"]]
+    if len(cands) != 1:
+        raise AnalysisBroken("SubstituteNodes::operator()(EdgePoint*) not found")
+    fs = cands[0]
+    bad = None
+    from ..microai.interp import MapVal
+    for dim in (0, 1):
+        for cn in list(geom) + ["CENTRE"]:
+            lhs, rhs, cen = (Obj("topology::Node", {"_tag": t, "id": 7}) for t in ("lhs", "rhs", "centre"))
+            info = default_obj(prog, "topology::ResizeInfo", {"lhsNode": lhs, "rhsNode": rhs})
+            ep = default_obj(prog, "topology::EdgePoint", {"node": node, "rectIntersect": RI[cn]})
+            tn = Vec([None] * 7 + [cen], "topology::Node *")
+            fun = default_obj(prog, "topology::SubstituteNodes", {"dim": dim, "resizes": MapVal({7: info}), "tn": tn})
+            it = Interp(prog, Oracle([]), hooks=hooks)
+            try:
+                it.call(fs, fun, None, None, arg_values=[ep])
+            except (Unsupported, AssertFail) as e:
+                raise AnalysisBroken("SubstituteNodes outside the interpreter subset: %s" % e)
+            got = ep.f["node"].f.get("_tag")
+            want = "centre" if cn == "CENTRE" else ("rhs" if high(cn, dim) else "lhs")
+            if got != want:
+                bad = bad or "resize in %s: a bend at corner %s is attached to the %s dummy node, expected %s" % ("xy"[dim], cn, got, want)
+    r.count(10)
+    (r.bad if bad else r.ok)("SubstituteNodes corner -> dummy node", fs.where(), bad or "")
+    # ---- which corner a new straight constraint keeps clear of the segment
+    fc = prog.fn("topology::Segment::createStraightConstraint")
+    bad = None
+    n_c = 0
+    for dim in (0, 1):
+        for node_left in (False, True):
+            for low_half in (False, True):
+                made = []
+
+                def sc_ctor(it, o, args, env):
+                    made.append([it.ev(a, env) for a in args])
+                hk = dict(hooks)
+                hk["topology::Segment::connectedToNode"] = lambda it, n, env: False
+
+                def fwd(it, n, env, node_left=node_left):
+                    a = call_args(n)
+                    if len(a) >= 3:
+                        it.lv(a[2], env).set(Fraction(1, 2))
+                    return Fraction(1000) if node_left else Fraction(-1000)
+                hk["topology::Segment::forwardIntersection"] = fwd
+                hk["topology::EdgePoint::pos"] = lambda it, n, env: it.ev(call_object(n), env).f["_p"]
+                hk["vpsc::Rectangle::getCentreD"] = lambda it, n, env: Fraction(10)
+                hk["vpsc::Rectangle::getCentreX"] = lambda it, n, env: Fraction(10)
+                hk["vpsc::Rectangle::getCentreY"] = lambda it, n, env: Fraction(10)
+                other = default_obj(prog, "topology::Node", {"id": 1})
+                st = default_obj(prog, "topology::EdgePoint", {"node": other, "rectIntersect": RI["CENTRE"], "_p": Fraction(0)})
+                en = default_obj(prog, "topology::EdgePoint", {"node": other, "rectIntersect": RI["CENTRE"], "_p": Fraction(100)})
+                seg = default_obj(prog, "topology::Segment", {"start": st, "end": en, "edge": default_obj(prog, "topology::Edge", {"id": 3}),
+                                                               "straightConstraints": Vec([], "topology::StraightConstraint *")})
+                it = Interp(prog, Oracle([]), hooks=hk)
+                it.ctor_hooks = {"topology::StraightConstraint": sc_ctor}
+                try:
+                    it.call(fc, seg, None, None, arg_values=[dim, node, Fraction(3) if low_half else Fraction(30)])
+                except (Unsupported, AssertFail) as e:
+                    raise AnalysisBroken("Segment::createStraightConstraint outside the interpreter subset: %s" % e)
+                n_c += 1
+                if len(made) != 1:
+                    bad = bad or "no straight constraint created (dim %s, nodeLeft %s)" % ("xy"[dim], node_left)
+                    continue
+                ri = made[0][3]
+                name = [k for k, v in RI.items() if v == ri][0]
+                # the corner kept clear: on the side of the node facing the segment in the scan dimension, and in the half where the
+                # scan line meets the node in the other dimension
+                if name not in geom or high(name, dim) != node_left or high(name, 1 - dim) != (not low_half):
+                    bad = bad or "scan dimension %s, segment %s of the node, scan line in the %s half: corner %s is chosen" % (
+                        "xy"[dim], "beyond (high side)" if node_left else "before (low side)", "low" if low_half else "high", name)
+    r.count(n_c)
+    (r.bad if bad else r.ok)("createStraightConstraint corner choice", fc.where(), bad or "")
+
+
 def run(chk):
     prog = chk.load()
     rule_alpha(chk, prog)
     rule_solve(chk, prog)
+    rule_corner_tables(chk, prog)
